@@ -863,7 +863,6 @@ def drive_orphans(rec, table, b, families, rng, keep=False):
     if not isinstance(rec.ctx, OrphanShim):
         rec.ctx = OrphanShim(ms)
     gc.collect()
-    gc.collect()
     T(rec.lat_list)
     if 'C05' in families or 'C06' in families:
         T(rec.lat_links)
